@@ -449,6 +449,65 @@ fn guarded<R>(f: impl FnOnce() -> R) -> Res<R> {
     catch_unwind(AssertUnwindSafe(f)).map_err(|e| panic_why(&*e))
 }
 
+/// Runs `f` inside the destructor of a value that is dropped by an unwinding panic
+/// (`std::thread::panicking()` is true while `f` runs).  `f` is itself run under catch_unwind
+/// inside that destructor, so nothing can escape it (an escaping panic would abort); a panic
+/// of the library call inside `f` is caught by the `guarded` around that call as always.
+pub fn in_unwinding<R>(f: impl FnOnce() -> R) -> R {
+    struct Runner<'a, F: FnOnce() -> R, R> {
+        f: Option<F>,
+        out: &'a mut (bool, Option<R>),
+    }
+    impl<F: FnOnce() -> R, R> Drop for Runner<'_, F, R> {
+        fn drop(&mut self) {
+            if let Some(f) = self.f.take() {
+                self.out.0 = std::thread::panicking();
+                self.out.1 = catch_unwind(AssertUnwindSafe(f)).ok();
+            }
+        }
+    }
+    let mut slot: (bool, Option<R>) = (false, None);
+    let r = catch_unwind(AssertUnwindSafe(|| {
+        let _runner = Runner { f: Some(f), out: &mut slot };
+        panic!("user: outer panic, the call is issued while this unwinds");
+    }));
+    assert!(r.is_err() && slot.0, "harness: the call was not issued during unwinding");
+    slot.1.expect("harness: the call issued during unwinding escaped its own catch_unwind")
+}
+
+pub fn on_rayon_worker() -> bool {
+    #[cfg(feature = "parallel")]
+    {
+        rayon::current_thread_index().is_some()
+    }
+    #[cfg(not(feature = "parallel"))]
+    {
+        false
+    }
+}
+
+/// Runs `f` on a worker thread of a small rayon pool (the caller blocks meanwhile, so the
+/// worker is the only thread touching the world).  Without feature `parallel`: runs `f` here.
+pub fn on_pool<R>(f: impl FnOnce() -> R) -> R {
+    #[cfg(feature = "parallel")]
+    {
+        struct Tr<T>(T);
+        unsafe impl<T> Send for Tr<T> {}
+        static POOL: std::sync::OnceLock<rayon::ThreadPool> = std::sync::OnceLock::new();
+        let pool = POOL.get_or_init(|| rayon::ThreadPoolBuilder::new().num_threads(2).build().unwrap());
+        let job = Tr(f);
+        let r = pool.install(move || {
+            let job = job;
+            Tr((job.0)())
+        });
+        r.0
+    }
+    #[cfg(not(feature = "parallel"))]
+    {
+        f()
+    }
+}
+
 pub struct Driver {
     world: *mut World,
     pub table: BTreeMap<u32, GEntry>,
@@ -617,16 +676,34 @@ impl Driver {
     /// Executes the call on the real world; returns the complete `call` event
     /// (call, gids of granted guards, outcome, observation after the call).
     pub fn do_call(&mut self, c: &CallSpec) -> Value {
+        self.do_call_in(c, false)
+    }
+
+    /// `&self` calls whose outcome must not depend on where they are issued
+    pub fn unwind_eligible(op: &str) -> bool {
+        matches!(
+            op,
+            "fetch" | "try_fetch" | "fetch_mut" | "try_fetch_mut" | "try_fetch_by_id" | "try_fetch_mut_by_id" | "has_value"
+                | "has_value_raw" | "system_data" | "meta_iter" | "meta_iter_mut" | "clone"
+        )
+    }
+
+    /// `unwinding`: the call is issued from a destructor that runs WHILE THE THREAD IS
+    /// UNWINDING from a panic (all guards of the table stay alive across it).  The spec action
+    /// is the ordinary one: the outcome of a World call does not depend on that.
+    pub fn do_call_in(&mut self, c: &CallSpec, unwinding: bool) -> Value {
+        let unwinding = unwinding && Self::unwind_eligible(&c.op);
         let mut gs: Vec<u32> = c.gs.clone();
         let (ty, dy) = match c.op.as_str() {
             "insert" | "remove" | "or_insert" | "or_insert_with" | "get_mut" | "has_value" | "fetch" | "try_fetch" | "fetch_mut"
             | "try_fetch_mut" => (c.targ, 0),
             _ => (c.ty, c.dy),
         };
-        let o = self.exec_op(c, ty, dy, &mut gs);
+        let o = if unwinding { in_unwinding(|| self.exec_op(c, ty, dy, &mut gs)) } else { self.exec_op(c, ty, dy, &mut gs) };
         let obs = self.observe();
         let shape: Vec<Value> = c.shape.iter().map(|m| json!({"k": m.k, "t": m.t})).collect();
-        json!({"ev":"call","op":c.op,"targ":c.targ,"ty":ty,"dy":dy,"p":c.p,"gs":gs,"shape":shape,"out":o,"obs":obs})
+        json!({"ev":"call","op":c.op,"targ":c.targ,"ty":ty,"dy":dy,"p":c.p,"gs":gs,"shape":shape,"out":o,"obs":obs,
+               "unwinding":unwinding,"rayon_worker":on_rayon_worker()})
     }
 
     fn exec_op(&mut self, c: &CallSpec, ty: u32, dy: u32, gs: &mut Vec<u32>) -> Value {
